@@ -512,9 +512,12 @@ class Gen:
             x = re.sub(r'\bpub(\([a-z ]+\))?\s+', '', x)
             x = re.sub(r'\bconst\s+fn\b', 'fn', x)
             return x
+        sig_changed = None
         if orig is not None and not region_lost and _sig_core(orig) != _sig_core(it.signature):
-            raise Undecided(f'{fid}: signature in {kv["file"]}:{it.line_start} is now `{rs.norm_ws(it.signature)}`; '
-                            f'the contract was written for `{rs.norm_ws(orig)}` (contract needs review)')
+            # the contract was written for another signature: this function is kept by contract only (stubbed, its own obligations
+            # undecided); callers that no longer type-check against the old signature are stubbed in turn by the runner
+            sig_changed = (f'{fid}: signature in {kv["file"]}:{it.line_start} is now `{rs.norm_ws(it.signature)}`; '
+                           f'the contract was written for `{rs.norm_ws(orig)}` (contract needs review)')
         # (signature + contract are emitted by emit_copy below, after the body is prepared)
         # body
         stubbed = fid in self.stub_fns
@@ -526,6 +529,8 @@ class Gen:
             body_lines, heads = [('{ unimplemented!() }', ('tmpl', path, 0))], []
         elif not stubbed:
             try:
+                if sig_changed:
+                    raise Undecided(sig_changed)
                 if region_lost:
                     raise Undecided(region_lost)
                 body_lines, heads = self._prepare_body(it, kv, fid, fn, loops, hints, local_rw, path)
